@@ -124,6 +124,9 @@ func (e *Engine) mapLookup(mv, k Value, mt *types.Map, commaOk bool) Value {
 	found := false
 	if mv.O != nil {
 		m := mv.O.(*MapObj)
+		if e.raceOn {
+			e.noteRead(locKey{m: m})
+		}
 		v, found = e.mapGetConcreteOrSym(m, k)
 	}
 	if !found {
@@ -146,6 +149,9 @@ func (e *Engine) mapUpdate(mv, k, v Value) {
 		panic(goPanicSignal{})
 	}
 	m := mv.O.(*MapObj)
+	if e.raceOn {
+		e.noteWrite(locKey{m: m})
+	}
 	i := e.mapFind(m, k)
 	old := m.d
 	nd := &MapData{hasSym: old.hasSym}
@@ -178,6 +184,9 @@ func (e *Engine) mapDelete(mv, k Value) {
 		return
 	}
 	m := mv.O.(*MapObj)
+	if e.raceOn {
+		e.noteWrite(locKey{m: m})
+	}
 	i := e.mapFind(m, k)
 	if i < 0 {
 		return
